@@ -24,7 +24,10 @@ def balancer(**cfg):
     if b is None:
         kw = dict(n_jobs=1)
         kw.update(cfg)
+        attrs = {k: kw.pop(k) for k in ("remove_aam",) if k in kw}  # public attributes that are not constructor arguments
         b = Balancer(**kw)
+        for k, v in attrs.items():
+            setattr(b, k, v)
         _BAL[key] = b
     return b
 
@@ -68,6 +71,8 @@ CRAFTED = [
     "[H]C(=O)c1ccccc1>>OCc1ccccc1", "C#CC=O.[H][H].[H][H]>>CCCO", "[H]C([H])([H])C(=O)C>>CC(O)C", "CC(=O)C.[H][H]>>CC(O)C",
     "[H]OC([H])([H])C>>CC=O", "CCO.OO>>CC(=O)O", "OO.CC=O>>CC(=O)O", "CC(=O)C.[Na+].[BH4-]>>CC(O)C", "[2H]C(=O)c1ccccc1>>OCc1ccccc1",
     "C=CC.[H][H]>>CCC.[H][H]", "CC=O.[H][H].O>>CCO", "[H][H].CC#N>>CCN", "CC(O)C.[O-][Cl+3]([O-])([O-])[O-]>>CC(=O)C",
+    # several oxidations / reductions in one molecule (the reagent templates are applied once per site)
+    "OCCCCO>>O=CCCC=O", "OCCCO>>O=CCC=O", "CC(O)CC(O)C>>CC(=O)CC(=O)C", "O=CCCC=O>>OC(=O)CCC(=O)O", "O=CCCC=O>>OCCCCO", "CC(=O)CC(=O)C>>CC(O)CC(O)C",
     # validation-set row whose solved result is overwritten by a permanganate template (C01 known finding)
     "C(CC(C=1C=C2C(N(C)C(=N2)CO)=CC=1OC)=O)C.O>>O=C(O)C=1N(C)C=2C(=CC(=C(OC)C=2)C(CCC)=O)N=1",
 ]
